@@ -108,3 +108,26 @@ package influxql
 // as "a OR b AND c" and re-parsed as a OR (b AND c).
 //@ func conditionExpr
 //@   ensures [group_stays_a_group] tagis(cond, "*influxql.ParenExpr") && result2 == nil && result0 != nil ==> tagis(result0, "*influxql.ParenExpr")
+
+// ---- constant folding (Reduce, run by the planner before the condition is printed and shipped). BinaryExpr.String()
+// adds no parentheses of its own, so the grouping of the planned tree survives printing only as ParenExpr nodes:
+// a parenthesised sub-expression that still is a binary expression after folding stays parenthesised - whether or
+// not something inside was folded.
+//@ func (*BinaryExpr).Depth
+//@   assigns nothing
+//@ func reduceParenExpr
+//@   requires expr != nil
+//@   ghost sub Iface = nil
+//@   call reduce
+//@     set sub = ret0
+//@   ensures [group_stays_a_group_after_folding] tagis(sub, "*influxql.BinaryExpr") ==> tagis(result, "*influxql.ParenExpr") && as(result, "*influxql.ParenExpr") != nil
+//@   ensures [group_holds_the_folded_expression] tagis(sub, "*influxql.BinaryExpr") ==> as(result, "*influxql.ParenExpr").Expr == sub
+//@   ensures [other_results_pass_through] !tagis(sub, "*influxql.BinaryExpr") ==> result == sub
+
+// ---- the store-side parser of IN / NOT IN lists: a member's type is the type of its token, exactly as the sql-side
+// grammar and the SetLiteral printer have it: INTEGER and NUMBER tokens become float64 members, every other token
+// (strings above all - also strings whose text looks like a number) stays a string member with its text.
+//@ func (*Parser).parseSet
+//@   store map[interface{}]bool
+//@     requires [numeric_member_only_from_a_numeric_token] tagis(key, "float64") ==> (tok == INTEGER || tok == NUMBER)
+//@     requires [other_tokens_stay_strings] !(tok == INTEGER || tok == NUMBER) ==> tagis(key, "string")
